@@ -1,6 +1,7 @@
 package core
 
 import (
+	"go/token"
 	"fmt"
 	"go/types"
 	"sort"
@@ -284,6 +285,64 @@ func (x *Exec) enterLoop(fr *frame, li *loopInfo, s *State) *State {
 	for a := range hs.cells {
 		if old, ok := n.Cells[a]; ok {
 			n.Cells[a] = x.freshValue(n, a.Comment, old.T)
+		}
+	}
+	// ghost counters: pin the ones the body cannot bump, forget the ones it can
+	if em := x.E.ghostEmitters(); len(em) > 0 {
+		if x.E.callees == nil {
+			x.E.buildCallGraph()
+		}
+		reach := map[string]bool{}
+		for b := range li.body {
+			for _, in := range b.Instrs {
+				ci, ok := in.(ssa.CallInstruction)
+				if !ok {
+					continue
+				}
+				if _, isGo := in.(*ssa.Go); isGo {
+					continue
+				}
+				c := ci.Common()
+				if _, isB := c.Value.(*ssa.Builtin); isB {
+					continue
+				}
+				if callee := c.StaticCallee(); callee != nil {
+					reach[x.E.fnKey(callee)] = true
+					if callee.Pkg == x.E.Pkg || (callee.Pkg == nil && callee.Origin() != nil && callee.Origin().Pkg == x.E.Pkg) {
+						for k := range x.E.reachKeys(callee) {
+							reach[k] = true
+						}
+					}
+					continue
+				}
+				if c.IsInvoke() {
+					reach[x.E.invokeKey(c)] = true
+				} else if u, ok := c.Value.(*ssa.UnOp); ok && u.Op == token.MUL {
+					if a, ok := u.X.(*ssa.Alloc); ok && a.Comment != "" {
+						reach["localfn "+a.Comment] = true
+						if a.Parent() != nil {
+							reach["localfn "+x.E.fnKey(a.Parent())+"."+a.Comment] = true
+						}
+					}
+				}
+				for k := range x.E.dynReach(c) {
+					reach[k] = true
+				}
+			}
+		}
+		for g, fns := range em {
+			bumped := false
+			for f := range fns {
+				if reach[f] {
+					bumped = true
+					break
+				}
+			}
+			if bumped {
+				n.Ghost[g] = x.C.Fresh("G_"+g, SBV64)
+			} else {
+				n.Ghost[g] = x.ghost(n, g)
+			}
 		}
 	}
 	switch {
